@@ -16,32 +16,40 @@ PROP = 'C11'
 MANIFEST = dict(
     technique='Coq proof (loop invariants by induction over the type list and over the namespace index in arbitrary iteration order; '
               'BFS invariant with a ghost visited list) about a hand model of build_namespace_tree / Namespace enumeration / BFS path '
-              'lookup / make_path; extracted-model vs. implementation correspondence on random DSDL trees, plus real generation runs '
-              '(API and nnvg) into a sandbox whose parent directory is snapshotted',
+              'lookup / make_path; source tie by shape pins on every modelled function and an AST scan of the two path sites, '
+              'regenerated from /repo on every run; extracted-model vs. implementation correspondence on random DSDL trees, plus real '
+              'generation runs (API and nnvg) into a sandbox whose parent directory is snapshotted',
     text='Theorems in coq/theories/Properties/C11.v, for EVERY list of types with pairwise different (namespace, short name, version) '
-         'under one root, every stropping function, every iteration order of the two kinds of hash sets, every extension / stem / '
-         'output directory: C11_index_prefix_closed (ancestor index = set of non-empty namespace prefixes; soundness of the `break`); '
-         'C11_ns_each_once (every non-empty prefix, empty intermediate namespaces included, is a Namespace object exactly once); '
-         'C11_types_stored_once; C11_links_sound and C11_links_consistent_partial (child/parent links = prefix structure); C11_tree '
-         '(returned root is the one-component namespace, reached by get_root_namespace from every node, only node without parent, '
-         'parents one component shorter: acyclic); C11_types_each_once_partial (get_all_types / get_all_datatypes / get_all_namespaces '
-         'enumerate every type and namespace exactly once); C11_lookup_total_partial (find_output_path_for_type finds every type from '
-         'every node); C11_path_shape, C11_ns_path_shape; C11_path_injective + C11_base_name_injective (distinct types never share a '
-         'file when stropping is injective on the names involved); C11_path_inside_outdir, C11_ns_path_inside_outdir (all components '
-         'below the output directory are safe names, lexical resolution only descends); C11_include_path_eq_output_path. The _partial '
-         'theorems exclude the boolean trigger ns_fold (two different namespaces with the same stropped spelling); '
-         'C11_types_each_once_refuted shows by witness that the faithful model then loses a type (known finding F-NS-FOLD, reproduced on '
-         'the real nnvg). Tie: the extracted model and the real build_namespace_tree / DSDLCodeGenerator / nnvg are run on the same '
-         'random DSDL trees (c, cpp, py; extension / stem / stropping overrides; five spellings of the output directory) and compared on '
-         'node set, links, enumerations, lookup from every node, path map, files on disk and include paths of a type referenced from '
-         'another root namespace; the property oracle (independent Python) is evaluated on every case as the falsifier.',
-    note='Trusted: Coq kernel; the hand model Gen/Namespace.v (validated by the correspondence run, not derived from the source); '
+         'under one root, every stropping function (also one that folds different namespace names onto one identifier), every '
+         'iteration order of the two kinds of hash sets, every extension / stem / output directory, with NO excluded input: '
+         'C11_index_prefix_closed (ancestor index = set of non-empty namespace prefixes; soundness of the `break`); C11_ns_each_once '
+         '(every non-empty prefix, empty intermediate namespaces included, is a Namespace object exactly once); C11_types_stored_once; '
+         'C11_links_sound, C11_links_consistent (child/parent links = prefix structure); C11_tree (returned root is the one-component '
+         'namespace, reached by get_root_namespace from every node, only node without parent, parents one component shorter: acyclic); '
+         'C11_types_each_once (get_all_types / get_all_datatypes / get_all_namespaces enumerate every type and namespace exactly once); '
+         'C11_lookup_total (find_output_path_for_type finds every type from every node); C11_path_shape, C11_ns_path_shape; '
+         'C11_path_injective + C11_base_name_injective (distinct types never share a file when stropping is injective on the names '
+         'involved); C11_path_inside_outdir, C11_ns_path_inside_outdir (all components below the output directory are safe names, '
+         'lexical resolution only descends); C11_include_path_eq_output_path; C11_type_file_in_namespace_folder (the type file lies in '
+         'Namespace.output_folder of its namespace). Source tie: C11_tree_shape_pinned, C11_path_shape_pinned (normalised AST of '
+         'build_namespace_tree, _NamespaceFactory, Namespace.__init__/__eq__/__hash__/_add_data_type/_add_nested_namespace/get_all_*/'
+         '_recursive_*/find_output_path_for_type/_bfs_search_for_output_path, IncludeGenerator.make_path/_make_ns_list, '
+         'Language.filter_short_reference_name, filter_type_to_include_path) and C11_path_sites_same_id_type (both path sites call '
+         'make_path once and strop nothing themselves; every stropping call of the path mechanism passes identifier type "path"). '
+         'C11_prefix_code_types_each_once_refuted documents the behaviour before fix f08a0a1 (F-NS-FOLD, fixed). Correspondence: the '
+         'extracted model and the real build_namespace_tree / DSDLCodeGenerator / nnvg run on the same random DSDL trees (c, cpp, py; '
+         'names sampled from every reserved list and pattern of every identifier type of the language configuration; folded sibling '
+         'namespaces; extension / stem / stropping overrides; five spellings of the output directory) and are compared on node set, '
+         'links, enumerations, lookup from every node, path map; the independent property oracle additionally checks files on disk, '
+         'type file inside its namespace folder, and include paths of a type referenced from another root namespace.',
+    note='Trusted: Coq kernel; the hand model Gen/Namespace.v for the pinned shape of the code (shape pins compare normalised ASTs: any '
+         'edit other than comments/docstrings/annotations/local renames fails closed and is then judged by the falsifier); '
          'namespaces as component lists instead of dot-joined strings; pathlib (the model receives PurePath(outdir).parts and '
          'reproduces with_suffix; joining relative parts is concatenation); pydsdl guarantees (one root, no duplicate definitions); '
          'stropping is an arbitrary function in the proofs (identifier-likeness and injectivity are hypotheses, C09 covers them) and a '
-         'table taken from the real filter_id in the correspondence run; POSIX lexical resolution without symlinks for "inside the '
-         'output directory"; extraction (ExtrOcamlBasic) + OCaml driver. Not covered: the empty type list (root namespace ""), '
-         'support files (C08/C12).',
+         'table taken from the real filter_id(x, "path") in the correspondence run; POSIX lexical resolution without symlinks for '
+         '"inside the output directory"; extraction (ExtrOcamlBasic) + OCaml driver. Not covered: the empty type list (root namespace '
+         '""), support files (C08/C12).',
     design='§5 C11')
 
 SAFE_COMPONENTS = ['a', 'b', 'c', 'd', 'e9', 'Abc', 'long_component_name', 'x1', 'q_', 'zz', 'm', 'n', 'p',
